@@ -163,6 +163,37 @@ def check(prog, rep, tier):
         init_vals = _init_values(prog, cn)
         cps = [p for p in paths(prog, cn, clr, inline="deep") if p.exit[0] == "return"]
         rep.analysed(clr, cn, len(cps))
+        # parameters (fields no mutator writes) that clear() nevertheless re-assigns must come out as the constructor left them:
+        # for every way the structure can have been built, clear()'s value - read over that constructor's final fields - is that
+        # constructor's own final value
+        from ..expr import canon, mapx
+        init_m = K.find_method("__init__")
+        cons = [q for q in paths(prog, cn, init_m, inline="deep") if q.exit[0] == "return"] if init_m is not None else []
+        params_rewritten = sorted({e.name for p in cps for e in p.events if e.kind == "setfield" and e.base == SELF} - set(mutated))
+        for fld in params_rewritten:
+            badp = None
+            for p in cps:
+                v = p.fields.get((SELF, fld))
+                if v is None:
+                    continue
+                for q in cons:
+                    qv = q.fields.get((SELF, fld))
+                    if qv is None:
+                        continue
+                    sub = mapx(strip_epochs(v), lambda x: strip_epochs(q.fields[(SELF, x[2])]) if (x[0] == "f" and x[1] == SELF and (SELF, x[2]) in q.fields) else None)
+                    sub = _resolve_none_tests(sub, q)
+                    qv = _resolve_none_tests(strip_epochs(qv), q)
+                    if canon(sub) != canon(strip_epochs(qv)) and not _same_initial(sub, {strip_epochs(qv), canon(strip_epochs(qv))}, fld):
+                        badp = (v, qv)
+                        break
+                if badp:
+                    break
+            if badp:
+                rep.bad("C19.clear-initial", f"{cn}.clear", f"{fld} = {nshow(badp[0])}",
+                        f"clear() re-assigns the parameter self.{fld} = {nshow(badp[0])}; a structure constructed with {fld} = {nshow(badp[1])} reports a different value after "
+                        "clear() than a fresh one built with the same arguments", clr.where())
+            else:
+                rep.ok("C19.clear-initial", f"{cn}.clear: parameter {fld} comes out as constructed")
         # rebinding writes: final values on every path
         for fld in sorted(mutated):
             if fld in missing:
@@ -352,6 +383,36 @@ def _memo_sound(prog, cn, g):
     return True, ""
 
 
+def _resolve_none_tests(e, q):
+    """decide `x is None` inside conditional values with what constructor path q knows (its own branch conditions; computed numbers
+    are not None)"""
+    from ..expr import mapx
+    known = {}
+    for c in q.conds:
+        a = strip_epochs(c.atom)
+        if a[0] == "cmp" and a[1] in ("is", "isnot") and a[3] == C(None):
+            known[a[2]] = (a[1] == "is") == c.truth
+
+    def f(n):
+        if n[0] == "phi":
+            c = n[1]
+            neg = False
+            if c[0] == "un" and c[1] == "not":
+                c, neg = c[2], True
+            if c[0] == "cmp" and c[1] in ("is", "isnot") and c[3] == C(None):
+                x = c[2]
+                isnone = known.get(x)
+                if isnone is None and x[0] in ("bin", "nary", "call", "c", "unp", "lst", "tup", "newb", "new"):
+                    isnone = x == C(None)
+                if isnone is not None:
+                    truth = isnone if c[1] == "is" else not isnone
+                    if neg:
+                        truth = not truth
+                    return n[2] if truth else n[3]
+        return None
+    return mapx(e, f)
+
+
 def _init_values(prog, cn):
     """field -> set of values the constructor may leave (params-construction paths), for comparison with clear()"""
     K = prog.cls(cn)
@@ -376,12 +437,21 @@ def _init_values(prog, cn):
                         if pk[1].lstrip("<>=@!") == w[1].lstrip("<>=@!") and w[2] < len(pk[2]):
                             v = strip_epochs(pk[2][w[2]])
                 out.setdefault(n, set()).add(v)
+        # the same values written over the fields the constructor has just set (width -> self.width ...): what a clear() that
+        # re-runs the allocation with the structure's own parameters leaves
+        from ..expr import canon, mapx
+        back = {strip_epochs(fv): ("f", SELF, fn, 0) for (b_, fn), fv in p.fields.items() if b_ == SELF and fv[0] not in ("c", "newb", "nary")}
+        for (b, n), v in p.fields.items():
+            if b == SELF:
+                v2 = mapx(strip_epochs(v), lambda x: back.get(x) if (x in back and back[x][2] != n) else None)
+                out.setdefault(n, set()).add(canon(v2))
     return out
 
 
 def _same_initial(v, wants, fld=None) -> bool:
+    from ..expr import canon
     v = strip_epochs(v)
-    if v in wants:
+    if v in wants or canon(v) in wants:
         return True
     # a fresh typed block of the array's present length: the same allocation as the constructor's (length is kept by every writer)
     if fld is not None and v[0] == "nary" and v[1] == "*" and len(v[2]) == 2:
